@@ -114,12 +114,12 @@ pub fn apply(repo: &str, req: &ItemReq, f: &mut FnUnderEdit) -> Result<(), Strin
 
     // R8 select!
     if has("select") {
-        let n = mac::rewrite_select(&mut f.block, false)?;
+        let n = mac::rewrite_select(&mut f.block, false, &req.select_cancel)?;
         f.fire("select", n);
     }
     // R8b select! with its polling order kept (readiness of every arm asked from the model)
     if has("select_poll") {
-        let n = mac::rewrite_select(&mut f.block, true)?;
+        let n = mac::rewrite_select(&mut f.block, true, &[])?;
         f.fire("select_poll", n);
     }
 
